@@ -38,10 +38,10 @@ func (p *P) writingRegion() Region {
 			if a == nil || a.Op != "Store" || a.Word != "Session.writing" {
 				return false
 			}
-			if _, isCall := in.(*ssa.Call); !isCall {
+			if _, isGo := in.(*ssa.Go); isGo {
 				return false
 			}
-			c, ok := constInt(a.Call.Args[1])
+			c, ok := constInt(a.Call.Args[1]) // a call, or a `defer` (the dataflow skips defers; exits see deferredRelease)
 			return ok && c == 0
 		},
 		EdgeAcquire: func(b *ssa.BasicBlock, i int) bool {
@@ -103,7 +103,7 @@ func runC18(p *P, r *R) {
 				"a write outside the flag lets two events interleave byte-wise on the socket")
 		}
 		for _, ret := range returnsOf(f) {
-			r.ob("R18.1", fn+": Session.writing is released on every exit", p.ipos(ret), !mh[ret], true, "a writer that keeps the flag blocks the send loop and every later fast path")
+			r.ob("R18.1", fn+": Session.writing is released on every exit", p.ipos(ret), !mh[ret] || p.deferredRelease(f, rg), true, "a writer that keeps the flag blocks the send loop and every later fast path")
 		}
 		// within a loop: the flag must not be held when the loop re-enters the acquire
 		for _, b := range f.Blocks {
@@ -140,28 +140,30 @@ func runC18(p *P, r *R) {
 		return ok && p.calleeName(&c.Call) == "asyncNotify" && isLoadOf(c.Call.Args[0], "Session.notifyContinueWriteCh")
 	}}
 	nRel, nLoop := 0, 0
+	// the send loop and the helpers split off it (same receiver, called from nowhere else)
+	var loopFam []*ssa.Function
 	for _, f := range p.fnList {
-		rels := findInstrs(f, M{ID: "rel", F: rg.Release})
-		if len(rels) == 0 {
-			continue
-		}
 		if isSendLoop(f) {
 			nLoop++
+			fam := p.family(f)
+			loopFam = append(loopFam, fam...)
 			// the send loop waits for the wake-up inside its acquire retry
 			okWait := false
-			allInstrs(f, func(in ssa.Instruction) {
-				if u, ok := in.(*ssa.UnOp); ok && u.Op == token.ARROW && isLoadOf(u.X, "Session.notifyContinueWriteCh") {
-					for i, s := range u.Block().Succs {
-						_ = i
-						_ = s
+			for _, g := range fam {
+				allInstrs(g, func(in ssa.Instruction) {
+					if u, ok := in.(*ssa.UnOp); ok && u.Op == token.ARROW && isLoadOf(u.X, "Session.notifyContinueWriteCh") {
+						okWait = true
 					}
-					okWait = true
-				}
-			})
+				})
+			}
 			r.ob("R18.2", p.fname(f)+": the send loop parks on notifyContinueWriteCh while the flag is taken", p.pos(f.Pos()), okWait, true, "")
+		}
+	}
+	for _, f := range p.fnList {
+		if inFns(f, loopFam) {
 			continue
 		}
-		for _, rel := range rels {
+		for _, rel := range findInstrs(f, M{ID: "rel", F: rg.Release}) {
 			nRel++
 			res := p.mustPass(f, []Point{pointOf(rel)}, notify.F, nil, nil)
 			r.ob("R18.2", p.fname(f)+": a fast-path release of Session.writing wakes the send loop", p.ipos(rel), res.OK, true,
